@@ -254,6 +254,11 @@ func partA(r *core.Run, col *collector, sp *sampler) (shapes []shape) {
 			}
 		}
 	}
+	nsem := 4
+	if e := os.Getenv("C11_MPSEM"); e != "" {
+		fmt.Sscan(e, &nsem)
+	}
+	mpSem := make(chan struct{}, nsem)
 	pool := make(chan pairOfStations, runtime.GOMAXPROCS(0)+1)
 	get := func() pairOfStations {
 		select {
@@ -264,7 +269,16 @@ func partA(r *core.Run, col *collector, sp *sampler) (shapes []shape) {
 		}
 	}
 	r.Parallel(len(items), func(ii int, l *core.Local) {
+		if r.Expired() {
+			r.Cap("wall-clock cap reached during the round-trip part: remaining value chunks not run")
+			return
+		}
 		it := items[ii]
+		if it.src == srcMultipart {
+			// every multipart request makes the client allocate a 1 MiB buffer: bound how many are in flight
+			mpSem <- struct{}{}
+			defer func() { <-mpSem }()
+		}
 		sts := get()
 		defer func() { pool <- sts }()
 		mine := newCollector()
@@ -415,6 +429,14 @@ func main() {
 	budgetFlag := flag.Uint64("allocbudget", 0, "allocation budget per request in bytes (internal)")
 	r := core.Start("C11")
 	groups := hostileGroups(r.Quick())
+	if r.Deadline.IsZero() {
+		// internal wall-clock caps (a capped run ends with exhaustive:false and exit 0)
+		if r.Quick() {
+			r.Deadline = r.Start.Add(75 * time.Second)
+		} else {
+			r.Deadline = r.Start.Add(14 * time.Minute)
+		}
+	}
 
 	if r.IsWorker() {
 		// address-space cap: an allocation bomb ends this worker (reported by the parent), not the machine
@@ -424,6 +446,10 @@ func main() {
 		t := &tot{l: l, st: [2]*station{newStation(false), newStation(true)}, budget: *budgetFlag}
 		for gi, g := range groups {
 			g := g
+			if r.Expired() {
+				r.Cap("wall-clock cap reached during the totality part: remaining groups not run")
+				break
+			}
 			t.ord = int64(gi) << 32
 			// twin groups (splitting off / on) share Unit and case numbering, so the same worker sees both
 			t.runGroup(g, col, func(idx int) bool { return r.Shard(g.Unit*7 + idx/64) }, func(n int) { fmt.Printf("group %d (%s splitting=%v) case %d\n", gi, g.Name, g.Split, n) })
@@ -436,13 +462,18 @@ func main() {
 	maxWF, budget, calib := calibrate()
 	// the bundled client allocates a 1 MiB copy buffer for every multipart request (client/hooks.go
 	// parserRequestBodyFile); with the default GC pacing that is a collection every few round trips
-	debug.SetGCPercent(2000)
-	debug.SetMemoryLimit(6 << 30)
+	gcp := 400
+	if e := os.Getenv("C11_GCPERCENT"); e != "" {
+		fmt.Sscan(e, &gcp)
+	}
+	debug.SetGCPercent(gcp)
 	tA := time.Now()
 	col := newCollector()
 	sp := &sampler{}
 	shapes := partA(r, col, sp)
 	dA := time.Since(tA)
+	debug.SetGCPercent(100)
+	debug.FreeOSMemory() // the worker processes need the memory now
 	var samplesA []any
 	for _, m := range sp.s {
 		samplesA = append(samplesA, m)
@@ -461,6 +492,9 @@ func main() {
 	r.Note(fmt.Sprintf("wall: round-trip part %.1fs on %d goroutines, totality part %.1fs on %d worker processes", dA.Seconds(), runtime.GOMAXPROCS(0), time.Since(tB).Seconds(), nw))
 	sort.Strings(crashed)
 	for _, c := range crashed {
+		if strings.Contains(c, "exit status 2") {
+			core.Fatal("totality worker reported a harness error: %s", c)
+		}
 		// the last progress line names the group; strip the case counter to keep the signature stable
 		grp := c
 		if i := strings.Index(c, "last="); i >= 0 {
@@ -476,7 +510,7 @@ func main() {
 	for _, g := range groups {
 		totalCases += g.NCases
 	}
-	if got := r.P.Counters["totality_requests"]; len(crashed) == 0 && got != int64(2*totalCases) {
+	if got := r.P.Counters["totality_requests"]; len(crashed) == 0 && len(r.P.Caps) == 0 && got != int64(2*totalCases) {
 		core.Fatal("totality part ran %d requests, expected %d", got, 2*totalCases)
 	}
 	if r.P.Counters["roundtrips"] == 0 {
